@@ -256,7 +256,8 @@ def kkt_predicate(J: torch.Tensor, u: list[float], norm_eps: float, reg_eps: flo
         return None
     A = G / s2 + reg_eps * np.eye(m)
     r = A @ wv
-    tol = 1e-9 * scale
+    # rounding of the QP solve grows with the conditioning (1 + reg_eps) / reg_eps of the regularised Gramian
+    tol = max(1e-9, 1e-13 / reg_eps) * scale
     if (wv < uv - tol).any():
         return "w_below_preference_vector"
     if (r < -tol).any():
